@@ -128,7 +128,7 @@ def random_op(rng, species, rules, live_ids):
     if k < 0.40:
         def sd():
             n = rng.choice([0, 1, 1, 2, 2, 3])
-            return {s: rng.choice([1, 1, 2, 3, 12]) for s in rng.sample(species, min(n, len(species)))}
+            return {s: rng.choice([1, 1, 2, 3, 12, 0, -2]) for s in rng.sample(species, min(n, len(species)))}
         rule = rng.choice(rules + [None])
         if rng.random() < 0.45:
             r0 = rule or "r"
@@ -223,7 +223,14 @@ def apply_real(H, op):
     k = op[0]
     try:
         if k == "add":
-            e = H.add_rxn(dict(op[1]), dict(op[2]), rule=op[3], edge_id=op[4])
+            form = (len(op[1]) + len(op[2]) + len(str(op[4]))) % 3  # deterministic choice of the accepted input form
+            a, b = dict(op[1]), dict(op[2])
+            if form == 1:
+                a, b = list(a.items()), list(b.items())
+            elif form == 2 and all(c > 0 for c in list(a.values()) + list(b.values())):
+                a = [s for s, c in a.items() for _ in range(c)]
+                b = [s for s, c in b.items() for _ in range(c)]
+            e = H.add_rxn(a, b, rule=op[3], edge_id=op[4])
             return ("ok", e.id)
         if k == "add_str":
             e = H.add_rxn_from_str(op[1], rule=op[2])
